@@ -212,8 +212,6 @@ def shard_entry(seed, count):
     rng = random.Random(seed)
     cells = []
     for kind in c11.BITS:
-        if kind == 'reset':
-            continue
         for cfgname in c11.CFGS:
             cells += [(kind, cfgname, mode, assign) for mode, assign in c11.cells(kind, cfgname) if dict(assign).get(('cpsr', 5)) == 1]
     for _ in range(count):
@@ -228,7 +226,7 @@ def run(ctx):
                 '(every 16-bit data-processing encoding whose S bit is "outside an IT block" (shift/add/sub/mov immediate and register forms, the 13 ALU register forms incl. RSB/MUL/MVN), 32-bit ALU, CMP/TST/CMN inside the block, LDR/STR, SVC, UDF, an aborting LDR, B / BX / POP {pc} as last), with ARM or Thumb '
                 'exception handlers that execute the standard return (MOVS PC,LR / SUBS PC,LR,#n). Every step of the program is compared with '
                 'the reference machine on the complete state (which slot executes, CPSR.IT after every step, flags untouched inside, SPSR IT bits '
-                'on exception entry, IT cleared in the handler, restored by the return). (3) every kind of exception entry (Undefined, SVC, SMC, Data Abort, IRQ, FIQ, Hyp trap; routed to Monitor / Hyp mode where the configuration has them) taken directly in the middle of an IT block: SPSR holds the ITSTATE, the handler runs with ITSTATE = 0. Non-trivial: block of >=2 with an else slot, or flags '
+                'on exception entry, IT cleared in the handler, restored by the return). (3) every kind of exception entry (Reset, Undefined, SVC, SMC, Data Abort, IRQ, FIQ, Hyp trap; routed to Monitor / Hyp mode where the configuration has them) taken directly in the middle of an IT block: SPSR holds the ITSTATE, the handler runs with ITSTATE = 0. Non-trivial: block of >=2 with an else slot, or flags '
                 'changed inside, or an exception inside; distinct = (IT, NZCV, slot kinds, handlers).' % len(LEGAL))
     ctx.technique = 'exhaustive enumeration of IT start states + Hypothesis-generated programs, differential against a reference interpreter'
     ctx.assumptions = ['vf/ref (ITSTATE rules, exception entry/return) is a faithful reading of DDI 0406C']
